@@ -20,6 +20,7 @@ type VerifQueueSnap struct {
 	Length      int64      `json:"length"`
 	RingLength  uint64     `json:"ringLength"`
 	Consumers   []string   `json:"consumers"`
+	ConsumerIDs []uint64   `json:"consumerIDs"`
 	RR          int        `json:"rr"`
 	CallToken   bool       `json:"callToken"`
 	LoadToken   bool       `json:"loadToken"`
@@ -61,6 +62,11 @@ func (queue *Queue) VerifSnap() VerifQueueSnap {
 	queue.cmrLock.RLock()
 	for _, c := range queue.consumers {
 		s.Consumers = append(s.Consumers, c.Tag())
+		var id uint64
+		if v, ok := c.(interface{ VerifID() uint64 }); ok {
+			id = v.VerifID()
+		}
+		s.ConsumerIDs = append(s.ConsumerIDs, id)
 	}
 	queue.cmrLock.RUnlock()
 	return s
